@@ -230,6 +230,7 @@ Proof.
   intros Hdn Ho. unfold draw. destruct (0 <? x); [|discriminate]. cbn [negb].
   destruct (find_cdp e s o t) as [c0|]; [|discriminate].
   destruct (get_cp e t) as [cp|]; [|discriminate].
+  destruct (mstat s (cp_spot cp) && mstat s (cp_liqm cp)) eqn:Em; [|discriminate]. cbn [negb].
   destruct (Nat.eqb pd (d_usdx e)); [|discriminate]. cbn [negb].
   destruct (debt_limit_ok e s t cp x); [|discriminate]. cbn [negb].
   destruct (sync_interest e s cp c0) as [s1 c| |] eqn:Es; try discriminate.
@@ -347,7 +348,8 @@ Proof.
   intros Hd. unfold liquidate_cdps. destruct (_ =? 0); [intros H; inversion H; subst; apply dm_refl|].
   destruct (existsb _ _); [discriminate|]. intros H.
   eapply (ofold_inv (dm e s)); [|apply dm_refl|exact H].
-  intros z o z' u0 P Hz. destruct o as [c|]; [|discriminate]. eapply dm_trans; [exact P|eapply dm_seize; eassumption].
+  intros z o z' u0 P Hz. destruct o as [c|]; [|discriminate]. unfold liq_step in Hz.
+  destruct (confirm_below _ _ _ _); [eapply dm_trans; [exact P|eapply dm_seize; eassumption]|inversion Hz; subst; exact P].
 Qed.
 
 Lemma dm_run_auctions e s s' u : denoms_ok e -> run_auctions e s = Ok s' u -> dm e s s'.
